@@ -62,6 +62,7 @@ type ObligationResult struct {
 	Sat       int
 	Unknown   int
 	KnownSat  int // failures attributed to a listed known finding
+	KnownUndecided int // solver unknown inside the region of a listed finding (not claimed there)
 	AbstractSat, ExactRefuted, AbstractOnly int
 	Trivial   int // assertion was a concrete `true`
 	Witnesses []*Witness
@@ -144,6 +145,8 @@ type Engine struct {
 	facts       map[*smt.Term]bool
 	intTerms    []*smt.Term // ideal mode: real-sorted terms known to be integer-valued
 	truncOf     map[*smt.Term]*smt.Term // ideal mode: truncation is a function (same argument, same result)
+	knownTries  map[string]int
+	intVars     []*smt.Term // ideal mode: the real-sorted variables standing for integer inputs (nd.IntRange)
 	exactNext   bool
 	hints       []*smt.Term
 	Probe       bool // probing run: no solver-backed obligations
@@ -183,7 +186,7 @@ func NewEngine(harness string, ideal bool, solverCmd []string, lim Limits) (*Eng
 		Ctx: ctx, S: s, Harness: harness, Lim: lim,
 		Obl: map[string]*ObligationResult{}, Reached: map[string]int{}, ReachWit: map[string]*Witness{},
 		Aborted: map[string]int{}, Funcs: map[string]int64{}, StubsHit: map[string]int{},
-		Ranges: map[string]rangeDecl{}, reachTries: map[string]int{}, crossDone: map[string]int{}, Cross: map[string]int{}, NondetSites: map[string]int{}, KnownHits: map[string]int{}, KnownWit: map[string]*Witness{},
+		Ranges: map[string]rangeDecl{}, reachTries: map[string]int{}, knownTries: map[string]int{}, crossDone: map[string]int{}, Cross: map[string]int{}, NondetSites: map[string]int{}, KnownHits: map[string]int{}, KnownWit: map[string]*Witness{},
 	}, nil
 }
 
@@ -218,6 +221,7 @@ func (e *Engine) beginPath() {
 	e.facts = map[*smt.Term]bool{}
 	e.intTerms = nil
 	e.truncOf = map[*smt.Term]*smt.Term{}
+	e.intVars = nil
 	e.OverflowChecks = false
 	e.S.UFWindow = ufWindowDefault
 	e.obsKeys = nil
@@ -534,6 +538,51 @@ func (e *Engine) modelFrom(sv *smt.Solver) (map[string]string, error) {
 
 func (e *Engine) witness(kind, id, note string) *Witness { return e.witnessFrom(e.S, kind, id, note) }
 
+// integerize (ideal-Q): the integer inputs of a harness are real-sorted in this mode; after a
+// `sat` the model may give them fractional values, which the native replay has to round. Try to
+// move each such variable to a neighbouring integer while staying satisfiable, so that the
+// witness replays as found. Works inside the caller's solver scope (the caller pops it).
+func (e *Engine) integerize(sv *smt.Solver) {
+	debugf("integerize: %d integer inputs", len(e.intVars))
+	if len(e.intVars) == 0 {
+		return
+	}
+	c := e.Ctx
+	vals, err := sv.Values(e.intVars)
+	if err != nil {
+		return
+	}
+	// keep the inputs that are already integral, then repair the others one at a time
+	sv.Push()
+	var frac []int
+	for k, v := range e.intVars {
+		if vals[k] == nil {
+			continue
+		}
+		if vals[k].IsInt() {
+			sv.Assert(c.Eq(v, c.Real(vals[k])))
+		} else {
+			frac = append(frac, k)
+		}
+	}
+	for _, k := range frac {
+		v := e.intVars[k]
+		fl := new(big.Rat).SetInt(smt.FloorRat(vals[k]))
+		ce := new(big.Rat).Add(fl, big.NewRat(1, 1))
+		for _, cand := range []*big.Rat{fl, ce} {
+			sv.Push()
+			sv.Assert(c.Eq(v, c.Real(cand)))
+			rr := sv.Check(2 * time.Second)
+			debugf("integerize %s := %s: %v", v.String(), cand.RatString(), rr)
+			if rr == smt.Sat {
+				break
+			}
+			sv.PopTo(sv.Level() - 1)
+		}
+	}
+	sv.Check(e.Lim.AssertTO) // the model is read after this call
+}
+
 func (e *Engine) witnessFrom(sv *smt.Solver, kind, id, note string) *Witness {
 	m, err := e.modelFrom(sv)
 	if err != nil {
@@ -613,7 +662,7 @@ func (e *Engine) exactQuery(extra *smt.Term, to time.Duration) smt.Result {
 		}
 		return r
 	}
-	if len(e.hints) > 0 && extra != nil {
+	if len(e.hints) > 0 {
 		// first look for a model inside the regime suggested by the harness (nd.Hint):
 		// hints only ever narrow the search for a concrete counterexample
 		if run(true) == smt.Sat {
@@ -674,9 +723,23 @@ func (e *Engine) Assert2(id string, cond *smt.Term, note string) {
 	start := time.Now()
 	neg := e.Ctx.Not(cond)
 	e.S.Push()
+	baseLevel := e.S.Level()
 	e.S.Assert(neg)
-	r := e.S.Check(e.Lim.AssertTO)
+	ato := e.Lim.AssertTO
+	inKnown := e.matchKnown(id) != nil
+	if inKnown && ato > 3*time.Second {
+		// inside the region of a listed finding the obligation is not claimed: a short look for
+		// a witness of the finding is enough
+		ato = 3 * time.Second
+	}
+	r := e.S.Check(ato)
 	modelFrom := e.S
+	knownUndecided := false
+	if r == smt.Unknown && inKnown && !e.S.Dead && !e.S.Abstract {
+		o.KnownUndecided++
+		knownUndecided = true
+		r = -1
+	}
 	if e.S.Dead {
 		e.rebuildSolver()
 		r = smt.Unknown
@@ -684,7 +747,19 @@ func (e *Engine) Assert2(id string, cond *smt.Term, note string) {
 		if r != smt.Unsat && e.S.Abstract {
 			// abstract sat/unknown: decide with the exact encoding
 			o.AbstractSat++
-			rx := e.exactQuery(neg, e.Lim.ExactTO)
+			rx := smt.Unknown
+			if kr := e.matchKnown(id); kr != nil && (e.knownTries[kr.What] >= 2 || (e.KnownWit[kr.What] != nil && !strings.Contains(e.KnownWit[kr.What].Note, "abstraction"))) {
+				// inside the region of a listed finding that already has its witness (or two attempts):
+				// the obligation is not claimed there, no exact confirmation needed
+				if r == smt.Unknown {
+					r = smt.Sat
+				}
+			} else {
+				if kr != nil {
+					e.knownTries[kr.What]++
+				}
+				rx = e.exactQuery(neg, e.Lim.ExactTO)
+			}
 			debugf("exact confirm %s: abstract=%v exact=%v hints=%d", id, r, rx, len(e.hints))
 			if rx == smt.Unknown && os.Getenv("SYMGO_DEBUG") == "2" {
 				for k, d := range e.decs {
@@ -728,6 +803,9 @@ func (e *Engine) Assert2(id string, cond *smt.Term, note string) {
 				room = old == nil || (!isAbs && strings.Contains(old.Note, "abstraction"))
 			}
 			if room {
+				if e.Ctx.Ideal && modelFrom == e.S {
+					e.integerize(e.S)
+				}
 				if w := e.witnessFrom(modelFrom, "violation", id, note); w != nil {
 					w.Tags = append([]string(nil), e.tags...)
 					if isAbs {
@@ -745,9 +823,10 @@ func (e *Engine) Assert2(id string, cond *smt.Term, note string) {
 				r = -1
 			}
 		}
-		e.S.PopTo(e.S.Level() - 1)
+		e.S.PopTo(baseLevel - 1)
 	}
 	o.SolverMS += time.Since(start).Milliseconds()
+	debugf("assert %s: result=%v tags=%v known=%v ms=%d", id, r, e.tags, e.matchKnown(id) != nil, time.Since(start).Milliseconds())
 	if r == smt.Unsat && !e.S.Dead {
 		e.crossCheck(id, neg)
 	}
@@ -757,7 +836,9 @@ func (e *Engine) Assert2(id string, cond *smt.Term, note string) {
 	case smt.Sat:
 		o.Sat++
 	case -1:
-		o.KnownSat++
+		if !knownUndecided {
+			o.KnownSat++
+		}
 	default:
 		o.Unknown++
 	}
